@@ -392,6 +392,13 @@ type Out struct {
 	StepErrs  []string `json:"step_errors"` // a statement or write of the history itself was refused, or the restart failed
 	DropAt    int64    `json:"drop_unix_ms"`
 	Drop2     *Drop    `json:"drop2,omitempty"` // the drop that is followed by kill -9 at once
+	// late drops (participants only): Drop3 names a series (host=e) that lives only in an index created AFTER the restart,
+	// Drop4 a series (host=f) of the ordinary time range; both series still have their rows in the WAL at the kill -9
+	Drop3 *Drop   `json:"drop3,omitempty"`
+	Drop4 *Drop   `json:"drop4,omitempty"`
+	W4    []Point `json:"w4,omitempty"`
+	Churn []Point `json:"churn,omitempty"`
+	Late  []SeriesKey `json:"late_series,omitempty"` // series added by the late phase (indexes into Series continue)
 }
 
 const fieldK = 5 // threshold of the field filter
@@ -403,6 +410,11 @@ type runner struct {
 	out      *Out
 	dropped  []row // rows removed by the drop (for the classification)
 	dropped2 []row // rows removed by the second drop (the one followed by kill -9)
+	dropped3 []row
+	dropped4 []row
+	// crash phase: the candidate sets (label -> rows); a wrong answer is classified by the subset of them that explains it
+	sets map[string][]row
+	late bool // takes part in the late phase
 }
 
 func fullMst(h *History, m string) string {
@@ -786,7 +798,7 @@ func (rn *runner) readAll(phase string, prime bool) {
 				o.Extra = rn.classify(m, &sh.Shape, sh.field, sh.kind, o.Rows, o.Want)
 			}
 			// (an answer that is exactly "expected + dropped rows" is a persistent leak, not worth asking again)
-			if !o.OK && attempt < 4 && o.Extra != "dropped-only" {
+			if !o.OK && attempt < 4 && !strings.HasPrefix(o.Extra, "dropped-only") {
 				// ask again: an answer that is wrong once and right on the immediate retry is recorded as transient
 				if attempt == 0 {
 					o.First = append([]string{}, o.Rows...)
@@ -811,6 +823,36 @@ func (rn *runner) readAll(phase string, prime bool) {
 
 // classify says whether a wrong answer is exactly "the expected answer plus (some of) the rows the drop removed"
 func (rn *runner) classify(m string, sh *Shape, field bool, kind string, got, want []string) string {
+	if rn.sets != nil {
+		// which of the late drops would, if undone, explain the answer exactly
+		labels := make([]string, 0, len(rn.sets))
+		for l := range rn.sets {
+			labels = append(labels, l)
+		}
+		sort.Strings(labels)
+		saved := rn.dropped
+		defer func() { rn.dropped = saved }()
+		for mask := 1; mask < 1<<len(labels); mask++ {
+			var rows []row
+			name := ""
+			for i, l := range labels {
+				if mask&(1<<i) != 0 {
+					rows = append(rows, rn.sets[l]...)
+					name += "+" + l
+				}
+			}
+			rn.dropped = rows
+			if rn.classify1(m, sh, field, kind, got, want, true) == "dropped-only" {
+				return "dropped-only:" + name[1:]
+			}
+		}
+		return "other"
+	}
+	return rn.classify1(m, sh, field, kind, got, want, false)
+}
+
+// classify1: exact = the answer must contain ALL rows of rn.dropped (of this measurement) that the shape selects
+func (rn *runner) classify1(m string, sh *Shape, field bool, kind string, got, want []string, exact bool) string {
 	if len(rn.dropped) == 0 {
 		return ""
 	}
@@ -837,7 +879,11 @@ func (rn *runner) classify(m string, sh *Shape, field bool, kind string, got, wa
 				return "foreign-rows"
 			}
 		}
-		return "dropped-only"
+		if exact {
+			// fall through: compare with the expectation computed with the dropped rows put back
+		} else {
+			return "dropped-only"
+		}
 	}
 	// aggregated / listing shapes: the answer must equal the expectation computed with the dropped rows put back
 	saved := rn.ref.rows
@@ -853,7 +899,15 @@ func (rn *runner) classify(m string, sh *Shape, field bool, kind string, got, wa
 	} else {
 		live = rn.liveRows(m, sh.Q, field)
 	}
-	w := rn.wantOf(kind, live)
+	var w []string
+	if kind == "raw" || kind == "groupraw" {
+		w = wantRaw(h, live)
+		if w == nil {
+			w = []string{}
+		}
+	} else {
+		w = rn.wantOf(kind, live)
+	}
 	if w == nil {
 		return ""
 	}
@@ -1010,6 +1064,95 @@ func (rn *runner) writePoints(ps []Point) error {
 		sb.WriteByte('\n')
 	}
 	return rn.s.write(rn.h.DB, rn.h.RP, sb.String())
+}
+
+const churnRounds = 8
+const maxLate = 5
+const lateOff = int64(-3000000) // about 35 days before the base time: a shard group and an index of its own
+
+// firstLive: the first measurement of the history that exists and has visible rows
+func (rn *runner) firstLive() string {
+	for _, m := range rn.h.Msts {
+		if !rn.ref.dead[m] && len(rn.liveRows(m, nil, false)) > 0 {
+			return m
+		}
+	}
+	return ""
+}
+
+// churnPoints: per existing measurement one in-order point (newer than everything) and one out-of-order point (older than
+// everything of the ordinary range) on its first series
+func (rn *runner) churnPoints(round int) []Point {
+	if rn.ref.gone {
+		return nil
+	}
+	var ps []Point
+	for _, m := range rn.h.Msts {
+		if rn.ref.dead[m] {
+			continue
+		}
+		for s, k := range rn.h.Series {
+			if k.Mst == m {
+				ps = append(ps, Point{S: s, T: int64(100 + round), V: int64(round)}, Point{S: s, T: int64(-10 - round), V: int64(round + 1)})
+				break
+			}
+		}
+	}
+	return ps
+}
+
+// waitCompaction waits (bounded) until no measurement directory holds churnRounds or more level-0 files any more, i.e. the
+// level compaction has rewritten them. File names are <sequence>-<level>-<extent>.tssp; out-of-order files live in a
+// subdirectory. It decides nothing about the data: the read matrix that follows is what is judged.
+func waitCompaction(dataDir string, max time.Duration) map[string]any {
+	deadline := time.Now().Add(max)
+	start := time.Now()
+	scan := func() (dirs, pending, compacted, ooo int) {
+		_ = filepath.WalkDir(dataDir, func(p string, d os.DirEntry, err error) error {
+			if err != nil || !d.IsDir() || filepath.Base(filepath.Dir(p)) != "tssp" {
+				return nil
+			}
+			ents, _ := os.ReadDir(p)
+			l0, hi := 0, 0
+			for _, e := range ents {
+				parts := strings.Split(strings.TrimSuffix(e.Name(), ".tssp"), "-")
+				if e.IsDir() || len(parts) != 3 || !strings.HasSuffix(e.Name(), ".tssp") {
+					continue
+				}
+				if parts[1] == "0000" {
+					l0++
+				} else {
+					hi++
+				}
+			}
+			if oo, err := os.ReadDir(filepath.Join(p, "out-of-order")); err == nil {
+				for _, e := range oo {
+					if strings.HasSuffix(e.Name(), ".tssp") {
+						ooo++
+					}
+				}
+			}
+			dirs++
+			if l0 >= churnRounds {
+				pending++
+			}
+			if hi > 0 {
+				compacted++
+			}
+			return nil
+		})
+		return
+	}
+	dirs0, pending0, _, ooo0 := scan()
+	for {
+		dirs, pending, compacted, ooo := scan()
+		if (pending == 0 && compacted > 0) || time.Now().After(deadline) {
+			return map[string]any{"measurement_dirs": dirs, "dirs_at_start": dirs0, "dirs_with_8_level0_files_at_start": pending0,
+				"dirs_still_uncompacted": pending, "dirs_with_compacted_file": compacted, "out_of_order_files_at_start": ooo0,
+				"out_of_order_files_at_end": ooo, "waited_ms": time.Since(start).Milliseconds()}
+		}
+		time.Sleep(400 * time.Millisecond)
+	}
 }
 
 // ---------------------------------------------------------------------------------------------------------
@@ -1298,9 +1441,21 @@ func main() {
 	settle()
 	step("visible2", func(rn *runner) error { rn.waitVisible(); return nil })
 	step("after-writes", func(rn *runner) error { rn.readAll("after-writes", false); return nil })
-	// phase 4: flush (+ whatever compaction / merge the store decides to run on the files it now has)
+	// phase 4: flush, then force compaction and out-of-order merge: eight write+flush rounds give every measurement eight
+	// level-0 files and eight out-of-order files; the level compaction and the merge fire at the compactor's next tick (10 s).
+	// The rows of dropped series are still in those files and are rewritten by the compaction.
 	_ = srv.ctrl("mod=flush")
-	time.Sleep(1500 * time.Millisecond)
+	for r := 0; r < churnRounds; r++ {
+		round := r
+		step("churn", func(rn *runner) error {
+			ps := rn.churnPoints(round)
+			rn.out.Churn = append(rn.out.Churn, ps...)
+			rn.ref.add(ps)
+			return rn.writePoints(ps)
+		})
+		_ = srv.ctrl("mod=flush")
+	}
+	comp := waitCompaction(filepath.Join(dir, "og", "data", "data"), 40*time.Second)
 	step("after-flush", func(rn *runner) error { rn.readAll("after-flush", false); return nil })
 	// phase 5: kill -9 and restart
 	srv.kill()
@@ -1312,9 +1467,85 @@ func main() {
 		time.Sleep(1500 * time.Millisecond)
 		step("after-restart", func(rn *runner) error { rn.readAll("after-restart", false); return nil })
 	}
-	// phase 6: a second DROP SERIES on what is left, acknowledged, and kill -9 IMMEDIATELY afterwards (no flush, no wait):
-	// an acknowledged drop must survive a crash like an acknowledged write does
+	// phase 6 (late drops and the crash). For the first few DROP SERIES / DROP MEASUREMENT histories of the shared database:
+	//   * W4: a series host=e whose points lie in a time range that has no index yet (its index is created now, AFTER the
+	//     deleted-series table of the policy was opened by the restart), and a series host=f in the ordinary range;
+	//   * DROP SERIES host=e (drop3) and host=f (drop4), acknowledged; the full read matrix ("after-late-drop");
+	//   * a writer keeps both shards warm from W4 to the kill, so the rows of W4 are still in the WAL (no cold flush);
+	// then, >= 3 s after those drops (the deleted-series table has flushed them to disk by then), for every history a DROP
+	// SERIES on what is left (drop2), acknowledged, and kill -9 IMMEDIATELY afterwards: an acknowledged drop must survive a
+	// crash like an acknowledged write does, and rows written before a drop must not come back from the WAL.
 	if srv.cmd != nil {
+		nlate := 0
+		for _, rn := range rs {
+			if rn.h.DB == sharedDB && !rn.ref.gone && nlate < maxLate && rn.firstLive() != "" {
+				rn.late = true
+				nlate++
+			}
+		}
+		stopWarm := make(chan struct{})
+		warmDone := make(chan struct{})
+		go func() {
+			defer close(warmDone)
+			for i := int64(0); ; i++ {
+				select {
+				case <-stopWarm:
+					return
+				default:
+				}
+				_ = srv.write(sharedDB, "", fmt.Sprintf("warm,host=w v=1i %d\nwarm,host=w v=1i %d", (baseSec+1000+i)*1e9, (baseSec+lateOff+1000+i)*1e9))
+				time.Sleep(700 * time.Millisecond)
+			}
+		}()
+		step("write4", func(rn *runner) error {
+			if !rn.late {
+				return nil
+			}
+			h := rn.h
+			m := rn.firstLive()
+			e := len(h.Series)
+			h.Series = append(h.Series, SeriesKey{Mst: m, Tags: map[string]string{"host": "e"}}, SeriesKey{Mst: m, Tags: map[string]string{"host": "f"}})
+			rn.out.Late = h.Series[e:]
+			rn.out.W4 = []Point{{S: e, T: lateOff + 5, V: 7}, {S: e, T: lateOff + 9, V: 3}, {S: e + 1, T: 61, V: 8}, {S: e + 1, T: 67, V: 2}}
+			rn.ref.add(rn.out.W4)
+			return rn.writePoints(rn.out.W4)
+		})
+		settle()
+		step("visible4", func(rn *runner) error {
+			if rn.late {
+				rn.waitVisible()
+			}
+			return nil
+		})
+		lateAt := time.Now()
+		step("drop34", func(rn *runner) error {
+			if !rn.late {
+				return nil
+			}
+			h := rn.h
+			m := rn.out.Late[0].Mst
+			d3 := Drop{Kind: "series", Mst: m, Pred: &Pred{Kind: "eq", Key: "host", Val: "e"}, N: 1}
+			d4 := Drop{Kind: "series", Mst: m, Pred: &Pred{Kind: "eq", Key: "host", Val: "f"}, N: 1}
+			rn.out.Drop3, rn.out.Drop4 = &d3, &d4
+			rn.dropped3 = rn.ref.applyDrop(&d3)
+			if _, err := srv.query(h.DB, "drop series from "+fullMst(h, m)+" where host = 'e'"); err != nil {
+				return err
+			}
+			rn.dropped4 = rn.ref.applyDrop(&d4)
+			_, err := srv.query(h.DB, "drop series from "+fullMst(h, m)+" where host = 'f'")
+			return err
+		})
+		step("after-late-drop", func(rn *runner) error {
+			if rn.late {
+				rn.sets = map[string][]row{"d3": rn.dropped3, "d4": rn.dropped4}
+				rn.readAll("after-late-drop", false)
+				rn.sets = nil
+			}
+			return nil
+		})
+		if d := 3200*time.Millisecond - time.Since(lateAt); d > 0 {
+			time.Sleep(d)
+		}
 		step("drop2", func(rn *runner) error {
 			h := rn.h
 			if h.DB != sharedDB || rn.ref.gone {
@@ -1335,6 +1566,8 @@ func main() {
 			return nil
 		})
 		srv.kill()
+		close(stopWarm)
+		<-warmDone
 		if err := srv.start(); err != nil {
 			for _, rn := range rs {
 				rn.out.StepErrs = append(rn.out.StepErrs, "restart after crash failed: "+err.Error())
@@ -1342,14 +1575,23 @@ func main() {
 		} else {
 			time.Sleep(1500 * time.Millisecond)
 			step("after-crash", func(rn *runner) error {
-				if rn.out.Drop2 != nil {
-					rn.dropped = rn.dropped2 // "dropped-only" in this phase: expected + rows of the series the SECOND drop named
+				if rn.out.Drop2 != nil || rn.late {
+					// a wrong answer in this phase is classified by the subset of the late drops whose undoing explains it
+					rn.sets = map[string][]row{}
+					if rn.out.Drop2 != nil {
+						rn.sets["d2"] = rn.dropped2
+					}
+					if rn.late {
+						rn.sets["d3"], rn.sets["d4"] = rn.dropped3, rn.dropped4
+					}
 					rn.readAll("after-crash", false)
+					rn.sets = nil
 				}
 				return nil
 			})
 		}
 	}
+	gen.Emit(map[string]any{"compaction": comp})
 	for _, rn := range rs {
 		gen.Emit(rn.out)
 	}
